@@ -262,9 +262,11 @@ func (p *Prog) checkGuardInfer(row GuardRow) GuardResult {
 		}
 		cands := map[*ssa.Function]*cand{}
 		for _, v := range res.Violations {
-			if v.CallTo != "" || v.Fn.Parent() != nil {
+			if v.Fn.Parent() != nil {
 				continue
 			}
+			// (a call to a lock-held helper without the lock makes the caller a candidate just like a
+			// bare access does: the requirement moves up to its own call sites)
 			for i, prm := range v.Fn.Params {
 				// the guarded object is reached from a parameter: "p.mutex" or "p.a.b.mutex"
 				if strings.HasPrefix(v.Need, prm.Name()+".") && strings.HasSuffix(v.Need, "."+row.Mutex) {
@@ -432,7 +434,7 @@ func (p *Prog) checkGuardOnce(row GuardRow) GuardResult {
 								}
 							}
 							if _, isGo := in.(*ssa.Go); isGo || !ls.Holds(need, !strings.HasPrefix(tmpl, "R:")) {
-								res.Violations = append(res.Violations, GuardViolation{Fn: fn, Instr: in, Need: need, Have: ls, CallTo: cal.Name()})
+								res.Violations = append(res.Violations, GuardViolation{Fn: fn, Instr: in, Need: need, Have: ls, CallTo: cal.Name(), Write: !strings.HasPrefix(tmpl, "R:")})
 							}
 						}
 					}
